@@ -211,8 +211,6 @@ func (s *state) doCall(b *ssa.BasicBlock, ii int, d *ssa.Call) bool {
 		return true
 	}
 	cs := callSites(b.Parent())[d]
-	s.runSite(b.Parent(), fmt.Sprintf("call %s %d", cs.name, cs.k), d.Pos(), nil)
-	callee, fc, cv := s.resolveCallee(d, true)
 	var args []Val
 	if c.IsInvoke() {
 		args = append(args, s.get(c.Value))
@@ -220,6 +218,19 @@ func (s *state) doCall(b *ssa.BasicBlock, ii int, d *ssa.Call) bool {
 	for _, a := range c.Args {
 		args = append(args, s.get(a))
 	}
+	// operands by the callee's parameter names, for arg(name) in `at call` clauses
+	if sig := c.Signature(); sig != nil && sig.Params().Len() <= len(c.Args) {
+		s.callArgs = map[string]Val{}
+		n := sig.Params().Len()
+		for i := 0; i < n; i++ {
+			if nm := sig.Params().At(i).Name(); nm != "" && nm != "_" {
+				s.callArgs[nm] = s.get(c.Args[len(c.Args)-n+i])
+			}
+		}
+	}
+	s.runSite(b.Parent(), fmt.Sprintf("call %s %d", cs.name, cs.k), d.Pos(), nil)
+	s.callArgs = nil
+	callee, fc, cv := s.resolveCallee(d, true)
 	wantInline := callee != nil && u.ct != nil && u.ct.inline[funcKey(callee)]
 	if fc != nil && !wantInline {
 		if cv != nil {
@@ -227,7 +238,11 @@ func (s *state) doCall(b *ssa.BasicBlock, ii int, d *ssa.Call) bool {
 		}
 		s.vals[d] = s.applyContract(fc, callee, args, d, d.Type())
 		s.cvBinds = nil
+		if rv := s.vals[d]; len(rv.S) > 0 {
+			s.callResult = &rv
+		}
 		s.runSite(b.Parent(), fmt.Sprintf("after call %s %d", cs.name, cs.k), d.Pos(), nil)
+		s.callResult = nil
 		if fc.neverReturns {
 			s.endPath()
 			return false
@@ -293,7 +308,11 @@ func (s *state) doReturn(rs []Val, d *ssa.Return) {
 		s.names = fr.names
 		s.curFn = fr.fn
 		if cs, ok := callSites(fr.b.Parent())[call]; ok {
+			if len(v.S) > 0 {
+				s.callResult = &v
+			}
 			s.runSite(fr.b.Parent(), fmt.Sprintf("after call %s %d", cs.name, cs.k), call.Pos(), nil)
+			s.callResult = nil
 		}
 		s.exec(fr.b, nil, fr.idx+1)
 		return
@@ -507,7 +526,11 @@ func (s *state) applyContract(fc *funcContract, callee *ssa.Function, args []Val
 		goal := e.with(sc).evalBool(c.e)
 		save := s.pc
 		s.pc = sc.pc
-		s.oblige("call-requires", what+"."+clauseLabel(c, i), c.src, goal, d.Pos(), site, c.deep)
+		if u.ct != nil && u.ct.partial {
+			u.notes["partial contract: preconditions of the callees of "+u.name()+" are assumed, not proved"] = true
+		} else {
+			s.oblige("call-requires", what+"."+clauseLabel(c, i), c.src, goal, d.Pos(), site, c.deep)
+		}
 		s.pc = append(save, goal)
 	}
 	pre := s.snapshot()
